@@ -1,7 +1,7 @@
 (* C15 -- Results are independent of the units of the axis and linear in the data. *)
 From Coq Require Import List Bool Arith ZArith QArith Qcanon.
 From NI Require Import Num Base Lookup Linear Interp Spline Tri TriProofs SplineAlgebra LookupProofs LinearProofs LinearExact
-  SplineProofs Units UnitsList BilinearList PeriodicSolve PeriodicLane PeriodicUnits PeriodicUnitsTop SplineIndividual UnitsIndividual.
+  SplineProofs Units UnitsList BilinearList PeriodicSolve PeriodicLane PeriodicUnits PeriodicUnitsTop SplineIndividual UnitsIndividual AdditiveMore.
 Import ListNotations.
 Local Open Scope Qc_scope.
 
@@ -306,8 +306,33 @@ Theorem C15_spline_individual_axis_units :
 Proof. exact spline_individual_axis_units. Qed.
 Print Assumptions C15_spline_individual_axis_units.
 
-(* Partial: additivity of Bilinear and of Periodic / per-lane splines at interpolator level (scalar and row
-   statements above), Periodic outside the range (C07 covers the wrap) (slope statements above cover any Mixed pair) and the bit-for-bit clause
+Theorem C15_bilinear_additive_list :
+  forall (xax yax : list Qc) (d1 d2 : list (list (list Qc))),
+    StrictIncQc xax -> StrictIncQc yax -> (2 <= length xax)%nat -> (2 <= length yax)%nat ->
+    (Z.of_nat (length xax) <= two64)%Z -> (Z.of_nat (length yax) <= two64)%Z ->
+    length d1 = length xax -> length d2 = length xax ->
+    (forall i, (i < length d1)%nat -> length (nth i d1 []) = length yax) ->
+    (forall i, (i < length d2)%nat -> length (nth i d2 []) = length yax) ->
+    (forall i j, (i < length xax)%nat -> (j < length yax)%nat -> length (cell d1 i j) = length (cell d2 i j)) ->
+    forall (ext : bool) (x y : Qc) (v1 v2 : list Qc),
+      bilinear_interp NumQc ext xax yax d1 x y = Ok v1 -> bilinear_interp NumQc ext xax yax d2 x y = Ok v2 ->
+      bilinear_interp NumQc ext xax yax (add_data2 d1 d2) x y = Ok (map2 Qcplus v1 v2).
+Proof. exact bilinear_additive_list. Qed.
+Print Assumptions C15_bilinear_additive_list.
+
+Theorem C15_periodic_slopes_additive :
+  forall (xs : list Qc) (d1 d2 : list (list Qc)) (L j : nat), (j < L)%nat ->
+    (forall i, (i < length d1)%nat -> length (nth i d1 []) = L) ->
+    (forall i, (i < length d2)%nat -> length (nth i d2 []) = L) ->
+    StrictIncQc xs -> length xs = length d1 -> length xs = length d2 -> (4 <= length d1)%nat ->
+    forall i, (i < length d1)%nat ->
+      nth j (nth i (periodic_k NumQc xs (add_data d1 d2) (length d1)) []) 0
+      = nth j (nth i (periodic_k NumQc xs d1 (length d1)) []) 0 + nth j (nth i (periodic_k NumQc xs d2 (length d1)) []) 0.
+Proof. exact periodic_slopes_additive. Qed.
+Print Assumptions C15_periodic_slopes_additive.
+
+(* Partial: additivity of Periodic (slopes proved above) and per-lane splines at interpolator level,
+   Periodic outside the range (C07 covers the wrap) (slope statements above cover any Mixed pair) and the bit-for-bit clause
    for powers of two are validated by the metamorphic runs (exact at rationals, bitwise at f64). *)
 
 Example C15_ex : (* axis in other units: x -> 2x + 3 *)
